@@ -1,4 +1,6 @@
-use super::{BoxConstraint, Tree, TreeMut, View, ViewContext, ViewLayout, ViewMutLayout};
+use super::{
+    BoxConstraint, Layout, Tree, TreeMut, View, ViewContext, ViewLayout, ViewMutLayout,
+};
 use crate::{Error, TerminalSurface};
 
 /// Widget that changes depending on constraints that it was given.
@@ -31,7 +33,9 @@ where
         layout: ViewLayout<'_>,
     ) -> Result<(), Error> {
         let view = layout.data::<V>().ok_or(Error::InvalidLayout)?;
-        view.render(ctx, surf, layout.view())?;
+        let surf = layout.apply_to(surf);
+        let child_layout = layout.children().next().ok_or(Error::InvalidLayout)?;
+        view.render(ctx, surf, child_layout)?;
         Ok(())
     }
 
@@ -41,9 +45,14 @@ where
         ct: BoxConstraint,
         mut layout: ViewMutLayout<'_>,
     ) -> Result<(), Error> {
+        // NOTE: generated view is laid out in its own node, if it shared the node with
+        //       `Dynamic` its layout data would be overwritten by the view stored here
+        //       (nested `Dynamic` of the same type would render itself recursively)
         let view = (self.build)(ctx, ct);
-        view.layout(ctx, ct, layout.view_mut())?;
-        layout.set_data(view);
+        let mut child_layout = layout.push_default();
+        view.layout(ctx, ct, child_layout.view_mut())?;
+        let size = child_layout.size();
+        *layout = Layout::new().with_size(size).with_data(view);
         Ok(())
     }
 }
